@@ -264,7 +264,7 @@ def oracle_plain(payload):
 def oracle_plan(shape):
     """the tolerated-omission rule of the property, checked on the invocations the real check_message makes"""
     r = impl_plan_wrap(shape)
-    if r in ('none',) or r.startswith('crash'):
+    if r.startswith('crash'):
         return None
     pre = shape['preimage'] or {}
     kind = shape['kind']
